@@ -18,6 +18,8 @@ fn vx_leaf_decreased(current: usize, decrease_factor: f64) -> (r: usize)
 // ---- types of /repo (shape-checked); ghost fields added ----
 pub struct AimdConfig { pub initial_limit: usize, pub min_limit: usize, pub max_limit: usize, pub increase_by: usize, pub decrease_factor: f64 }
 impl AimdConfig {
+    /// #[derive(Clone)]
+    #[verifier::external_body] pub fn clone(&self) -> (r: Self) ensures r == *self { unimplemented!() }
     pub fn default() -> (r: Self)
         ensures r.min_limit <= r.max_limit && r.min_limit >= 1,   // #default_bounds_are_ordered [C13]
     //@body AimdConfig::default@Default file=aimd
@@ -159,6 +161,11 @@ impl AimdController {
         ensures r.wf(),   // #starts_within_bounds [C13,C08]
             r.config == config,   // #keeps_config [C13]
     //@body AimdController::new file=aimd
+
+    pub fn clone(&self) -> (r: Self)
+        requires self.wf(),
+        ensures r.wf() && r.config == self.config,   // #a_cloned_controller_starts_within_the_same_bounds [C13,C08]
+    //@body AimdController::clone@Clone file=aimd
 
     pub fn limit(&self) -> (r: usize)
         requires self.wf(),
